@@ -144,6 +144,17 @@ class BaseKeyInfo(ABC, BaseInfo):
             self._rawdefaults = self._default
         self._default = OrderedDict()
 
+    def convert_default_key(self, keytype, key, position):
+        # A default key that the key type rejects is an error in the
+        # schema, just like a key name that it rejects.
+        try:
+            return keytype(key)
+        except ValueError as e:
+            lineno, colno, url = position or (None, None, None)
+            raise ZConfig.SchemaError(
+                "could not convert default key %s to keytype: %s"
+                % (repr(key), e), url, lineno, colno)
+
 
 class KeyInfo(BaseKeyInfo):
 
@@ -172,7 +183,7 @@ class KeyInfo(BaseKeyInfo):
     def computedefault(self, keytype):
         self.prepare_raw_defaults()
         for k, vi in self._rawdefaults.items():
-            key = ValueInfo(k, vi.position).convert(keytype)
+            key = self.convert_default_key(keytype, k, vi.position)
             self.add_valueinfo(vi, key)
 
     def getdefault(self):
@@ -206,7 +217,7 @@ class MultiKeyInfo(BaseKeyInfo):
     def computedefault(self, keytype):
         self.prepare_raw_defaults()
         for k, vlist in self._rawdefaults.items():
-            key = ValueInfo(k, vlist[0].position).convert(keytype)
+            key = self.convert_default_key(keytype, k, vlist[0].position)
             for vi in vlist:
                 self.add_valueinfo(vi, key)
 
